@@ -59,8 +59,8 @@ theorem writePositive_noMax (ds : List Nat) (e : Int) (o : WOpts) :
 /-- finish: `take cursor` of a chain of `put`s equals a list-level expression -/
 macro "finish_bytes" : tactic => `(tactic|
   (apply take_eq_of_getD
-   · simp only [put_length]; omega
-   · simp; omega
+   · first | omega | (simp only [put_length] <;> omega) | (simp <;> omega)
+   · first | omega | (simp <;> omega)
    · bytes_tac))
 
 theorem posC_bytes (ds : List Nat) (sciExp : Int) (o : WOpts) (b : WBuf) (r : Out)
@@ -232,5 +232,34 @@ theorem sciC_bytes (fmt : Format) (feats : Features) (ds : List Nat) (sciExp : I
   obtain ⟨hl, hbytes⟩ := hbody
   obtain ⟨_, hexp⟩ := writeExponentB_bytes fmt feats _ _ _ _ r h4
   rw [hexp, hbytes, writeExponent_eq]
+
+/-- **`compact.rs` agrees with the list level**: whenever the buffer-faithful `compact::write_float` succeeds, the
+returned prefix is exactly `writeDigitsC`. -/
+theorem decimalC_bytes (fmt : Format) (feats : Features) (debug : Bool) (ds : List Nat) (sciExp : Int) (o : WOpts)
+    (b : WBuf) (r : Out) (hds : 1 ≤ ds.length) (hmx : o.maxDigits ≠ some 0)
+    (h : decimalC fmt feats debug ds sciExp o b = .ok r) :
+    r.buf.bytes.take r.cursor = writeDigitsC fmt feats ds sciExp o := by
+  unfold decimalC at h
+  unfold writeDigitsC
+  have hl := (truncateAndRound_length ds o hds hmx).1
+  generalize truncateAndRound ds o = tr at h hl ⊢
+  dsimp only at h ⊢
+  by_cases c0 : ds.length > 32
+  · rw [if_pos c0] at h; cases h
+  · rw [if_neg c0] at h
+    by_cases c1 : debug = true ∧ endsInZero tr.1 = true
+    · rw [if_pos c1] at h; cases h
+    · rw [if_neg c1] at h
+      generalize hsci : sciExp + (if tr.2 = true then 1 else 0) = sci at h ⊢
+      by_cases c2 : ¬ fmt.noExponentNotation = true ∧
+          (fmt.requiredExponentNotation = true ∨ sci < o.negBreak.getD (-5) ∨ sci > o.posBreak.getD 9)
+      · rw [if_pos c2] at h ⊢
+        exact sciC_bytes fmt feats tr.1 sci o b r hl h
+      · rw [if_neg c2] at h ⊢
+        by_cases c3 : sci < 0
+        · rw [if_pos c3] at h ⊢
+          exact negC_bytes tr.1 sci o b r c3 h
+        · rw [if_neg c3] at h ⊢
+          exact posC_bytes tr.1 sci o b r h
 
 end LexVerif.Proof.WriteFloatCompact
